@@ -287,7 +287,7 @@ def check(run):
     stims.append(race)
     extra += recs
     run.cov["foreign_drop_race"] = {k: recs[1][k] for k in ("rounds", "pairs", "created")}
-    if recs[1]["rounds"] < 100:
+    if recs[1]["rounds"] < 100 and recs[1]["two_live"] == 0:      # (the driver stops at the first pair of distinct instances)
         raise vlib.ToolError("pt-race exercised nothing: %s" % json.dumps(recs[1]))
     with open(tp, "a") as f:
         for r in extra:
